@@ -9,6 +9,8 @@ import (
 	_ "verifharness/props/c07"
 	_ "verifharness/props/c08"
 	_ "verifharness/props/c09"
+	_ "verifharness/props/c14"
+	_ "verifharness/props/c15"
 	_ "verifharness/props/c16"
 	_ "verifharness/props/c17"
 	_ "verifharness/props/ctime"
